@@ -104,6 +104,7 @@ class Registry:
         self.used_pynames: set[str] = set()
         self.mixin_factory = mixin_factory    # callable(kind) -> base class
         self.hook_log: list = []
+        self.pending_fwd: list = []
 
     def close(self):
         sys.modules.pop(self.modname, None)
@@ -192,7 +193,41 @@ def _dc_class(term, reg: Registry):
     from harness import classes  # late import: needs mashumaro
     cls = classes.build_dataclass(term, reg)
     reg.by_def[key] = cls
+    # classes referred to by forward references are defined only now (postponed evaluation of the referring class)
+    while reg.pending_fwd:
+        concretize_type(reg.pending_fwd.pop(0), reg)
     return cls
+
+
+def make_union(args):
+    """typing.Union[...] WITHOUT typing's lru cache: Union[A, B] == Union[B, A], so the cache hands back whichever
+    order was created first in the process -- the bridge must build exactly the declared member order."""
+    flat = []
+    for a in args:
+        if typing.get_origin(a) is typing.Union:
+            flat.extend(typing.get_args(a))
+        else:
+            flat.append(a)
+    out = []
+    for a in flat:
+        if not any(a is b or (a == b and type(a) is type(b)) for b in out):
+            out.append(a)
+    if len(out) == 1:
+        return out[0]
+    return typing._UnionGenericAlias(typing.Union, tuple(out))
+
+
+def subscript(generic, params):
+    """generic[params] WITHOUT typing's lru cache (List[Union[A, B]] == List[Union[B, A]] would otherwise come back
+    in whichever order was built first in this process)"""
+    getitem = type(generic).__getitem__
+    raw = getattr(getitem, "__wrapped__", None)
+    if raw is not None:
+        try:
+            return raw(generic, params)
+        except TypeError:
+            pass
+    return generic[params]
 
 
 def concretize_type(t, reg: Registry):
@@ -221,36 +256,36 @@ def concretize_type(t, reg: Registry):
         "seq": typing.Sequence, "mseq": typing.MutableSequence, "aset": typing.AbstractSet,
     }
     if tag in one:
-        return one[tag][concretize_type(t[1], reg)]
+        return subscript(one[tag], concretize_type(t[1], reg))
     if tag == "vtuple":
-        return typing.Tuple[concretize_type(t[1], reg), ...]
+        return subscript(typing.Tuple, (concretize_type(t[1], reg), ...))
     if tag == "tuple":
         if not t[1]:
             return typing.Tuple[()]
-        return typing.Tuple[tuple(concretize_type(e, reg) for e in t[1])]
+        return subscript(typing.Tuple, tuple(concretize_type(e, reg) for e in t[1]))
     if tag == "utuple":
         pre = [concretize_type(e, reg) for e in t[1]]
         mid = concretize_type(t[2], reg)
         post = [concretize_type(e, reg) for e in t[3]]
-        return typing.Tuple[(*pre, typing.Unpack[typing.Tuple[mid, ...]], *post)]
+        return subscript(typing.Tuple, (*pre, typing.Unpack[subscript(typing.Tuple, (mid, ...))], *post))
     two = {
         "dict": typing.Dict, "odict": typing.OrderedDict, "ddict": typing.DefaultDict,
         "mapping": typing.Mapping, "mmapping": typing.MutableMapping, "chainmap": typing.ChainMap,
     }
     if tag in two:
-        return two[tag][concretize_type(t[1], reg), concretize_type(t[2], reg)]
+        return subscript(two[tag], (concretize_type(t[1], reg), concretize_type(t[2], reg)))
     if tag == "mproxy":
         return types.MappingProxyType[concretize_type(t[1], reg), concretize_type(t[2], reg)]
     if tag == "counter":
-        return typing.Counter[concretize_type(t[1], reg)]
+        return subscript(typing.Counter, concretize_type(t[1], reg))
     if tag == "ntuple":
         return _ntuple_class(t, reg)
     if tag == "tdict":
         return _tdict_class(t, reg)
     if tag == "opt":
-        return typing.Optional[concretize_type(t[1], reg)]
+        return make_union([concretize_type(t[1], reg), type(None)])
     if tag == "union":
-        return typing.Union[tuple(concretize_type(e, reg) for e in t[1])]
+        return make_union([concretize_type(e, reg) for e in t[1]])
     if tag == "newtype":
         key = jkey(t)
         if key not in reg.by_def:
@@ -265,6 +300,10 @@ def concretize_type(t, reg: Registry):
         return typing.Annotated[concretize_type(t[1], reg), "verif-annotation"]
     if tag == "dc":
         return _dc_class(t, reg)
+    if tag == "fwd":
+        # forward reference: the annotation is the NAME; the class is defined after the class that refers to it
+        reg.pending_fwd.append(t[2])
+        return t[1]
     if tag == "discr":
         from mashumaro.types import Discriminator
         base = concretize_type(t[1], reg)
